@@ -165,3 +165,91 @@ def case(cfg, values):
 
 def spec(cfg, i, path):
     return path.outcome == 'ret' and path.value == []
+
+
+# ------------------------------------------------------------------ one-to-one re-assignment chains: both already have partners; with and without cascade_delete
+_O2O = {}
+O2O_BOUND = 'one-to-one Person.passport / Passport.person x cascade_delete on the Person side or not x the other side optional x 12 (re)assignments from either side x everything loaded or only the operands'
+
+
+def o2o_model(cascade):
+    if cascade in _O2O: return _O2O[cascade]
+    db = orm.Database('sqlite', ':memory:')
+
+    class Person(db.Entity):
+        id = orm.PrimaryKey(int)
+        passport = orm.Optional('Passport', cascade_delete=cascade)
+
+    class Passport(db.Entity):
+        id = orm.PrimaryKey(int)
+        person = orm.Optional(Person)
+    db.generate_mapping(create_tables=True)
+    _O2O[cascade] = types.SimpleNamespace(db=db, Person=Person, Passport=Passport)
+    return _O2O[cascade]
+
+
+O2O_OPS = [('person.passport', 1, 2), ('person.passport', 1, 3), ('person.passport', 3, 1), ('person.passport', 3, 3), ('person.passport', 1, None), ('person.passport', 1, 1),
+           ('passport.person', 2, 1), ('passport.person', 3, 1), ('passport.person', 1, 3), ('passport.person', 1, None), ('passport.person', 3, 3), ('passport.person', 1, 2)]
+
+
+def o2o_configs(tier):
+    return [dict(cascade=c, op=repr(op), preload=pl, then=t) for c in (False, True) for op in O2O_OPS for pl in (True, False) for t in (None,) + tuple(repr(o) for o in O2O_OPS[:4])]
+
+
+def _o2o_work(cfg):
+    M = o2o_model(cfg['cascade'])
+    _reset()
+    with orm.db_session:
+        M.db.execute('delete from Passport'); M.db.execute('delete from Person')
+        M.db.execute('insert into Person(id) values (1), (2), (3)')
+        M.db.execute('insert into Passport(id, person) values (1, 1), (2, 2), (3, null)')           # persons 1, 2 have passports 1, 2; person 3 and passport 3 are free
+    link = {1: 1, 2: 2, 3: None}; passports = {1, 2, 3}                                           # person -> passport
+    ops = [next(o for o in O2O_OPS if repr(o) == cfg['op'])] + ([next(o for o in O2O_OPS if repr(o) == cfg['then'])] if cfg['then'] else [])
+    bad = []
+    try:
+        with orm.db_session:
+            if cfg['preload']:
+                list(M.Person.select()); list(M.Passport.select())
+                for p in M.Person.select(): p.passport
+            for kind, a, b in ops:
+                if kind == 'person.passport':
+                    if b is not None and b not in passports: continue                              # the passport was deleted by a cascade: the step is meaningless
+                    M.Person[a].passport = None if b is None else M.Passport[b]
+                    old = link[a]
+                    if old != b:
+                        if b is not None:
+                            for q in link:
+                                if link[q] == b: link[q] = None                                        # the passport leaves its former holder
+                        link[a] = b
+                        if old is not None and cfg['cascade']: passports.discard(old)               # the passport that was replaced is deleted with cascade_delete (when assigned from this side)
+                else:
+                    if a not in passports: continue
+                    M.Passport[a].person = None if b is None else M.Person[b]
+                    for q in link:
+                        if link[q] == a: link[q] = None
+                    if b is not None:
+                        old = link[b]
+                        link[b] = a
+            # (whether a replaced passport is deleted or only unlinked depends on the side the assignment was made from; C12 asks only that the two ends agree)
+            existing = sorted(k.id for k in M.Passport.select())
+            inverse = {k: next((q for q in link if link[q] == k), None) for k in existing}
+            got_link = {q: getattr(M.Person[q].passport, 'id', None) for q in link}
+            got_back = {k: getattr(M.Passport[k].person, 'id', None) for k in existing}
+            if got_link != link: bad.append(('in the session: passports of persons %r' % got_link, 'links made: %r' % link))
+            if got_back != inverse: bad.append(('in the session: persons of passports %r' % got_back, 'links made: %r' % inverse))
+            if any(v is not None and v not in existing for v in link.values()): bad.append(('a linked passport no longer exists', link, existing))
+        rows = dict(M.db.provider.pool.con.execute('select id, person from Passport').fetchall())
+        if rows != inverse: bad.append(('committed rows (passport -> person): %r' % rows, 'links made: %r' % inverse))
+    except Exception as e:
+        bad.append(('raises %s: %s' % (type(e).__name__, str(e)[:100]),))
+    finally:
+        _reset()
+    return bad
+
+
+def o2o_case(cfg, values):
+    from vf import par
+    def call():
+        key = {k: v for k, v in cfg.items() if not k.startswith('_')}
+        return par.precomputed('c12_o2o', o2o_configs('quick'), _o2o_work, key)
+    return Case(call, {}, [], lambda r: _reset(), lambda r: _reset())
